@@ -184,3 +184,65 @@ def kf_norm_037e(case, o, kind, cfg, consts):
     want = [0x37e if c == 0xe000 else c for c in want]
     d = [int.from_bytes(o.blocks[1][i:i + 4], 'little') for i in range(0, len(o.blocks[1]) - 3, 4)]
     return 0 in d and d[:d.index(0)] == want
+
+# ---------------------------------------------------------------- C11 (printf engine)
+C11_KINDS = ('text-differs', 'stream-differs', 'count-wrong', 'fits-but-failed', 'nofit-success')
+def _c11_dirs(case): return case.meta.get('ds') or []
+def _star_args(d):
+    """(width arg or None, precision arg or None) of the * fields"""
+    k = 0; w = p = None
+    if d.width == '*': w = d.args[k]; k += 1
+    if d.prec == '*': p = d.args[k]; k += 1
+    return w, p
+def _is_int(d): return d.conv in 'diuxXo'
+def _left(d):
+    w, _ = _star_args(d); return '-' in d.flags or (w is not None and w < 0)
+def _has_prec(d): return d.prec is not None
+def _num(x, star): return star if x == '*' else (0 if x in ('', None) else x)
+
+@pred
+def kf_c11_exact_fit(case, o, kind, cfg, consts):
+    # the text has exactly dmax characters: the engine overwrites the last one with the terminator and returns dmax
+    m = case.meta; t = m.get('text')
+    return (m.get('kind') == 'buffer' and m['func'] in ('snprintf_s', 'sprintf_s', 'vsnprintf_s') and kind in ('nofit-success', 'count-wrong')
+            and o.ret == str(m['dmax']))
+@pred
+def kf_c11_left_precision(case, o, kind, cfg, consts):
+    # safec_ntoa_format pads to the precision only when FLAGS_LEFT is clear
+    return kind in C11_KINDS and any(_is_int(d) and _left(d) and _has_prec(d) for d in _c11_dirs(case))
+@pred
+def kf_c11_hash(case, o, kind, cfg, consts):
+    # '#' with a precision or a width: the prefix handling drops digits / adds a zero (octal)
+    return kind in C11_KINDS and any(_is_int(d) and d.conv in 'xXo' and '#' in d.flags and (d.prec is not None or d.width is not None) for d in _c11_dirs(case))
+@pred
+def kf_c11_ntoa_buffer(case, o, kind, cfg, consts):
+    # precision or zero-padded width of 32 or more: the digit buffer has 32 slots
+    def big(d):
+        w, p = _star_args(d)
+        return _num(d.prec, p) >= 31 or ('0' in d.flags and _num(d.width, abs(w) if w is not None else 0) >= 31)
+    return kind in C11_KINDS and any(_is_int(d) and big(d) for d in _c11_dirs(case))
+@pred
+def kf_c11_negative_star_precision(case, o, kind, cfg, consts):
+    # a negative * precision is taken as precision 0 with FLAGS_PRECISION set, C takes it as omitted
+    def neg(d):
+        _, p = _star_args(d); return p is not None and p < 0
+    return kind in C11_KINDS and any(neg(d) for d in _c11_dirs(case))
+@pred
+def kf_c11_string_zero_precision(case, o, kind, cfg, consts):
+    # %.0s / %.s: strnlen is unbounded when precision is 0, so the "exceeds dmax" test uses the full length
+    def z(d):
+        _, p = _star_args(d); return d.conv == 's' and d.length == '' and d.prec is not None and _num(d.prec, p if p is not None else 0) <= 0
+    return kind == 'fits-but-failed' and any(z(d) for d in _c11_dirs(case))
+@pred
+def kf_c11_wide(case, o, kind, cfg, consts):
+    # %ls: wcstombs_s into a buffer of wcsnlen+1 BYTES; %lc after the fix is fine for ASCII only when padding counts bytes
+    return kind in C11_KINDS + ('fault',) and any(d.length == 'l' and d.conv in 'cs' for d in _c11_dirs(case))
+_float_table = None
+@pred
+def kf_c11_float_grid(case, o, kind, cfg, consts):
+    # floating conversions: the committed table of grid cases that deviate on the unchanged tree (known_float_cases.tsv)
+    global _float_table
+    if _float_table is None:
+        import props; _float_table = props.c11_load_float_table()
+    import props
+    return kind in C11_KINDS + ('order-dependent',) and any(d.conv in 'fFeEgG' and props.c11_float_key(d) in _float_table for d in _c11_dirs(case))
